@@ -5,5 +5,7 @@ import IweModel.Props.C15
 #print axioms Iwe.Path.climbs_above_root
 #print axioms Iwe.Path.fromFileName_not_endsMd
 #print axioms Iwe.Path.trimMd_append_md
+#print axioms Iwe.Path.written_url_nonempty
+#print axioms Iwe.Path.bare_writer_counterexample
 #print axioms Iwe.Path.join_resolver_counterexample
 #print axioms Iwe.Path.resolve_relative_join_partial
